@@ -226,6 +226,63 @@ pub fn minimise(
             }
         }
     }
+    // 5b. shorter texts: cut shared expressions and parsed texts at top-level operator positions
+    // (a prefix that still parses), trying the shortest candidates first
+    fn cut_points(text: &str) -> Vec<usize> {
+        let mut depth = 0i32;
+        let mut pts = Vec::new();
+        let b = text.as_bytes();
+        for (i, c) in text.char_indices() {
+            match c {
+                '(' | '{' | '[' => depth += 1,
+                ')' | '}' | ']' => depth -= 1,
+                _ => {}
+            }
+            if depth == 0 && i > 0 && i + 1 < b.len() && "+-*/%^<>=&|".contains(c) {
+                let prev = b[i - 1] as char;
+                if prev.is_alphanumeric() || prev == ')' || prev == '}' || prev == ' ' || prev == '.' {
+                    pts.push(i);
+                }
+            }
+        }
+        pts
+    }
+    for j in 0..w.shared.len() {
+        let mut progress = true;
+        while progress && ctx.execs < ctx.budget {
+            progress = false;
+            let text = w.shared[j].text.clone();
+            let pts = cut_points(&text);
+            // a handful of candidates, shortest first
+            let mut tried = 0;
+            for p in pts {
+                if tried >= 6 {
+                    break;
+                }
+                let cand = text[..p].trim_end().to_string();
+                if cand.is_empty() || cand.len() + 4 > text.len() {
+                    continue;
+                }
+                let s = &w.shared[j];
+                let (kind, form, compile) = (s.kind, s.form, s.compile);
+                let parses = std::panic::catch_unwind(|| crate::kinds::make_handle(kind, form, &cand, compile).is_ok())
+                    .unwrap_or(false);
+                if !parses {
+                    continue;
+                }
+                tried += 1;
+                let mut w2 = w.clone();
+                w2.shared[j].text = cand;
+                if let Some((s3, v)) = ctx.still_fails(&w2, &sched, 3) {
+                    w = w2;
+                    sched = s3;
+                    viol = v;
+                    progress = true;
+                    break;
+                }
+            }
+        }
+    }
     // 6. fewer context switches: remove switch points one at a time (from the back)
     loop {
         let mut improved = false;
